@@ -29,7 +29,8 @@
 // mode cycles
 //   live <L>                     persistent worker threads 1..L (main is 0)
 //   cycle sleep_us= slow_us= grace_us= flush_ms= handler=0|1 logger=reuse|fresh remove=0|1 stopper=<tid> drain=0|1
-//   burst tid=<0..L | e>  sizes=<...>      (tid=e: a new thread that logs the burst and exits; joined before Stop)
+//   burst tid=<0..L | e>  sizes=<...>      (tid=e: a new thread that logs the burst and exits; joined before Stop;
+//                                           sizes=mod23x<count>: count statements of sizes i % 23)
 //   After every Stop the cycle's log file is copied to snap<i>.txt with plain syscalls (what is flushed at that instant).
 //
 // exit codes of the child itself (harness problems, never a verdict about quill): 90 bad spec, 77 survived a signal,
@@ -156,7 +157,17 @@ std::vector<unsigned> parse_sizes(std::string const& s)
   {
     size_t q = s.find(',', p);
     if (q == std::string::npos) q = s.size();
-    if (q > p) v.push_back(static_cast<unsigned>(std::strtoul(s.substr(p, q - p).c_str(), nullptr, 10)));
+    if (q > p)
+    {
+      std::string const tok = s.substr(p, q - p);
+      if (tok.compare(0, 6, "mod23x") == 0)
+      {
+        // compact form of a big burst of tiny statements: sizes i % 23 for i < count
+        unsigned long const count = std::strtoul(tok.c_str() + 6, nullptr, 10);
+        for (unsigned long i = 0; i < count; ++i) v.push_back(static_cast<unsigned>(i % 23));
+      }
+      else v.push_back(static_cast<unsigned>(std::strtoul(tok.c_str(), nullptr, 10)));
+    }
     p = q + 1;
   }
   return v;
@@ -614,10 +625,10 @@ struct Program
     if (sig != 0 && (!spec.handler || spec.actor >= nthreads)) bad_spec("signal kinds need the handler and a logging actor");
 
     // the pthread_kill / kill sender: never logs, never runs the handler
-    std::thread* killer = nullptr;
-    if (sig != 0 && spec.delivery != "raise")
+    if (sig != 0 && (spec.delivery == "pthread_kill" || spec.delivery == "kill"))
     {
-      killer = new std::thread(
+      new std::thread( // leaked on purpose: it never ends
+
         [this]()
         {
           sigset_t all;
